@@ -4,6 +4,7 @@ mod generic;
 mod interp;
 mod gen;
 mod guard;
+mod qdrive;
 mod quire;
 mod sink;
 mod val;
@@ -28,6 +29,17 @@ fn main() {
             match suite {
                 "C01" => drive::suite_c01(&mut ctx),
                 "SELF" => drive::suite_self(&mut ctx),
+                "C02" => drive::suite_c02(&mut ctx),
+                "C03" => drive::suite_c03(&mut ctx),
+                "C05" => drive::suite_c05(&mut ctx),
+                "C06" => drive::suite_c06(&mut ctx),
+                "C07" => drive::suite_c07(&mut ctx),
+                "C08" => drive::suite_c08(&mut ctx),
+                "C09" => drive::suite_c09(&mut ctx),
+                "C10" => drive::suite_c10(&mut ctx),
+                "C17" => drive::suite_c17(&mut ctx),
+                "C04" => qdrive::suite_c04(&mut ctx),
+                "C12" => qdrive::suite_c12(&mut ctx),
                 _ => {
                     eprintln!("unknown suite {suite}");
                     std::process::exit(2);
